@@ -206,7 +206,13 @@ func (r *recorder) Bind(p *pod_info.PodInfo, hostname string, annos map[string]s
 }
 
 func (r *recorder) Evict(pod *corev1.Pod, job *podgroup_info.PodGroupInfo, md eviction_info.EvictionMetadata, msg string) error {
-	err := r.Cache.Evict(pod, job, md, msg)
+	var err error
+	if r.faults["evict-refused:"+pod.Name] {
+		// what SchedulerCache.Evict answers for a victim that terminated / was deleted after the snapshot
+		err = fmt.Errorf("received an eviction attempt for a terminated task: <%v/%v>", pod.Namespace, pod.Name)
+	} else {
+		err = r.Cache.Evict(pod, job, md, msg)
+	}
 	d := Decision{Kind: "evict", Pod: pod.Name, Group: job.Name, Node: pod.Spec.NodeName, Action: md.Action,
 		GangSize: md.EvictionGangSize, Failed: err != nil || r.faults["evict:"+pod.Name]}
 	if md.Preemptor != nil {
